@@ -386,6 +386,10 @@ struct Checker {
             if (!ks::generate_family<K>(spec, eps, data, q)) { fprintf(stderr, "cannot regenerate family\n"); exit(2); }
             if (m.count("prior_chunks")) for (auto &pc : mc::split(m.at("prior_chunks"), '.')) silent_build(data, eps, atoi(pc.c_str()));
             verif::chunks = int(spec.chunks); desc = (m.count("prior_chunks") ? "prior_chunks=" + m.at("prior_chunks") + " " : "") + "family=" + m.at("family");
+        } else if (m.count("convex")) {
+            auto pr = mc::split(m.at("convex"), ':'); long shape = atol(pr[0].c_str()), lo = atol(pr[1].c_str()), nn = atol(pr[2].c_str());
+            if constexpr (std::is_same_v<K, uint64_t>) { if (shape == 0) for (long i = 0; i < nn; ++i) { uint64_t v = uint64_t(lo + i); data.push_back(v * v); } else for (long i = 0; i < nn; ++i) data.push_back(uint64_t(std::sqrt((long double)(lo + i)) * 4000000.0L)); }
+            desc = "convex=" + m.at("convex"); if (m.count("chunks")) verif::chunks = atoi(m.at("chunks").c_str());
         } else { data = mc::parse_keys<K>(m.at("data")); desc = "data=" + m.at("data"); if (m.count("chunks")) verif::chunks = atoi(m.at("chunks").c_str()); }
         if (m.count("env")) verif::env = atoi(m.at("env").c_str());
         printf("replay: key=%s eps=%zu mode=%s n=%zu chunks=%d env=%d\n", kname(), eps, mode.c_str(), data.size(), verif::chunks, verif::env);
@@ -411,6 +415,16 @@ template<typename K> void run_task(Run &run, Cn &cn, int prop, const Task &t) {
             ks::FamilySpec s; s.kind = "seam"; s.n = t.n; s.chunks = t.p; s.seam = t.seam; s.word = w;
             if (w == t.w_lo + 9) run.sample(ck.case_of("family=" + s.str(), t.eps, "par"));
             ck.family(s, t.eps, w % 16 == 0);
+        }
+    } else if (t.kind == 5) {
+        // smooth convex / concave data with a large epsilon: one segment whose convex hulls keep more than 2^16 points
+        if constexpr (std::is_same_v<K, uint64_t>) {
+            std::vector<K> data; data.reserve(size_t(t.n));
+            if (t.seam == 0) for (long i = 0; i < t.n; ++i) { uint64_t v = uint64_t(t.w_lo + i); data.push_back(v * v); }                                   // ranks grow like sqrt(key)
+            else for (long i = 0; i < t.n; ++i) data.push_back(uint64_t(std::sqrt((long double)(t.w_lo + i)) * 4000000.0L));                          // ranks grow like key^2
+            bool ok = true; for (size_t i = 1; i < data.size(); ++i) if (!(data[i - 1] < data[i])) ok = false;
+            if (ok) { verif::chunks = int(t.p); ck.check_direct(data, t.eps, true, "convex=" + std::to_string(t.seam) + ":" + std::to_string(t.w_lo) + ":" + std::to_string(t.n)); verif::chunks = 1; }
+            else run.harness_error("convex family member is not strictly increasing");
         }
     } else if (t.kind == 4) {
         // one process, several builds with different thread counts in a row
@@ -504,6 +518,8 @@ int main(int argc, char **argv) {
                     if (pp == 20 && !thorough && j > 2 && j < 17) continue;
                     for (long len : {1L, 2L}) { if (j + len > pp) continue; Task t; t.key = k; t.kind = 3; t.eps = 1; t.n = 32768; t.p = pp; t.seam = j; t.rep = len; tasks.push_back(t); }
                 }
+            // smooth convex / concave data, epsilon 1024: segments of more than 2^16 points whose hulls keep every point
+            if (k == 6 && prop == 3) for (long shape : {0L, 1L})   // C03 only: the exact feasibility oracle of C04 is quadratic on hulls of this size for (long pp : (thorough ? std::vector<long>{1, 4} : std::vector<long>{1})) { Task t; t.key = k; t.kind = 5; t.eps = 1024; t.n = thorough ? 600000 : 220000; t.p = pp; t.seam = shape; t.w_lo = shape == 0 ? 1000000 : 4000000; tasks.push_back(t); }
             // a history of builds with changing thread counts inside one process
             for (long w : {0L, 1365L, 2730L}) { Task t; t.key = k; t.kind = 4; t.eps = 1; t.n = 32768; t.w_lo = w; tasks.push_back(t); }
             // below the chunking threshold the builder must stay sequential whatever the thread count
@@ -545,7 +561,7 @@ int main(int argc, char **argv) {
     ev.states_counter = "arrays_segmented"; ev.transitions_counter = prop == 3 ? "point_vs_line_checks" : "maximality_checks_against_exact_oracle";
     ev.nontrivial_counter = "arrays_with_2plus_distinct_keys";
     ev.rule = std::string("every non-decreasing key sequence of length 1..") + std::to_string(N) + " over each 10-value palette, key types u32/i32/u64/i64/u8/i16/long long/unsigned long long" + (prop == 3 ? "/float/double" : "") +
-              ", epsilon 0..3, fed to make_segmentation; seam-window family (n=2^15(+delta), all 4096 six-letter words over {dup,+1,+2,+65536} at every chunk seam) through make_segmentation_par with the chunk count answered by the harness (also as a history 8,1,2,20,3,8,1 of thread counts inside one process; processors = threads, more threads than processors, fewer threads than processors: c = min of the two); block grammar (1 block x rep, 2 blocks) for epsilon in {1,8,64" + (thorough ? ",1024" : "") + "}. " +
+              ", epsilon 0..3, fed to make_segmentation; seam-window family (n=2^15(+delta), all 4096 six-letter words over {dup,+1,+2,+65536} at every chunk seam) smooth convex and concave key sets of 220,000+ keys with epsilon 1024 (segments of more than 2^16 points); seam-window members through make_segmentation_par with the chunk count answered by the harness (also as a history 8,1,2,20,3,8,1 of thread counts inside one process; processors = threads, more threads than processors, fewer threads than processors: c = min of the two); block grammar (1 block x rep, 2 blocks) for epsilon in {1,8,64" + (thorough ? ",1024" : "") + "}. " +
               (prop == 3 ? "Each point recorded by hook H1 is evaluated against the line reported for its segment (exact 128-bit rational arithmetic for integer keys, long double + stated tolerance for floating keys). "
                          : "Each builder call's partition is compared with the greedy partition computed by an exact rational stabbing-line oracle (pairwise slope bounds), plus the optimum count, the 2*epsilon spacing of segment starts, and every upper-level call inside PGMIndex builds. ") +
               "State = one segmented array; transition = one point checked; non-trivial = at least two distinct keys.";
